@@ -351,6 +351,22 @@ fn gen_number_ecm(rng: &mut Rng, bits: u32) -> (Vec<u128>, String) {
     (v, "ecm_small_factors".to_string())
 }
 
+/// Inputs above 190 bits for the automatic strategy: P-1 with its large-input bounds, then the
+/// threaded ECM driver (ecm_auto) over and over on the shrinking cofactor. Prime factors stay
+/// below 48 bits so that ECM finds all of them and the SIQS fallback never sees a large input.
+fn gen_number_auto_large(rng: &mut Rng, bits: u32) -> (Vec<u128>, String) {
+    let k = (rng.range(5, 9) as u32).max((bits + 43) / 44);
+    let parts = split_bits(rng, bits, k, 20);
+    let mut v: Vec<u128> = parts.iter().map(|&b| gen_prime(rng, b.clamp(20, 48))).collect();
+    if rng.chance(0.2) {
+        // a repeated factor
+        let p = v[0];
+        v[1] = p;
+    }
+    v.sort();
+    (v, "auto_large_smooth".to_string())
+}
+
 fn rng_bits(rng: &mut Rng, lo: u32, hi: u32) -> u32 {
     rng.range(lo as u64, hi as u64) as u32
 }
@@ -365,6 +381,10 @@ fn default_fb(algo: Algo, n: &Uint) -> u32 {
 
 fn choose_bits(rng: &mut Rng, prop: &str, tier: Tier, algo: Algo) -> u32 {
     let (lo, hi) = match (tier, algo) {
+        // selectors with a 64-bit precondition (asserted in factor_impl)
+        (_, Algo::Rho | Algo::Squfof) => (16, 60),
+        (_, Algo::Qs64) => (24, 60),
+        (Tier::Thorough, Algo::Ecm128) => (24, 126),
         (Tier::Quick, Algo::Qs) => (40, 90),
         (Tier::Quick, Algo::Mpqs) => (40, 100),
         (Tier::Quick, Algo::Siqs) => (40, 110),
@@ -407,7 +427,12 @@ pub fn gen_spec(rng: &mut Rng, prop: &str, tier: Tier) -> Spec {
         "C05" => [32, 32, 8, 22, 6],
         _ => [34, 32, 8, 20, 6],
     };
-    let algo = algos[rng.weighted(&w)];
+    let mut algo = algos[rng.weighted(&w)];
+    // C01 quantifies over all ten selectors: the five that have no pool, poll-free or 64-bit only,
+    // take part as workload (the absolute C01 oracle judges their single-threaded run too)
+    if prop == "C01" && rng.chance(0.12) {
+        algo = *rng.pick(&[Algo::Pm1, Algo::Ecm128, Algo::Rho, Algo::Squfof, Algo::Qs64]);
+    }
     let mut bits = choose_bits(rng, prop, tier, algo);
     if prop == "C02" && algo != Algo::Auto {
         bits = bits.max(66);
@@ -415,6 +440,11 @@ pub fn gen_spec(rng: &mut Rng, prop: &str, tier: Tier) -> Spec {
     if (prop == "C05" || prop == "C01") && algo == Algo::Auto && rng.chance(0.2) {
         // above 128 bits the automatic strategy runs threaded ECM (ecm_auto) before SIQS
         bits = rng.range(129, 140) as u32;
+    }
+    // above 190 bits the automatic strategy uses other P-1 bounds and only the threaded ECM driver
+    let auto_large = algo == Algo::Auto && rng.chance(0.06);
+    if auto_large {
+        bits = rng.range(191, 250) as u32;
     }
     // contention profile of C04: oversized factor base on a mid-size input and nothing else (the
     // sieve then needs several "enough relations?" rounds and ends with fewer relations than
@@ -437,12 +467,14 @@ pub fn gen_spec(rng: &mut Rng, prop: &str, tier: Tier) -> Spec {
     let mut tries = 0;
     let (primes, mut shape) = loop {
         tries += 1;
-        if tries % 8 == 0 && !oversized_profile {
+        if tries % 8 == 0 && !oversized_profile && !auto_large {
             // this size cannot satisfy the constraints below: draw another one
             bits = choose_bits(rng, prop, tier, algo).max(if prop == "C02" && algo != Algo::Auto { 66 } else { 8 });
         }
         let (primes, shape) = if algo == Algo::Ecm {
             gen_number_ecm(rng, bits)
+        } else if auto_large {
+            gen_number_auto_large(rng, bits)
         } else if lanczos_profile {
             let a = bits / 2;
             (vec![gen_prime(rng, a), gen_prime(rng, bits - a)], "semiprime_balanced".to_string())
@@ -947,13 +979,18 @@ impl Family for FactorFamily {
 
     fn rule(&self, prop: &str, tier: Tier) -> String {
         format!(
-            "family factor/{prop}/{}: base scenario i = (n built from generator-chosen primes in 11 shapes, selector in \
+            "family factor/{prop}/{}: base scenario i = (n built from generator-chosen primes in 12 shapes, up to 250 bits for auto, selector in \
              {{auto,siqs,mpqs,qs,ecm}}, randomised fb_size/interval_size/large_factor/use_double) drawn from \
-             PRNG(VERIF_SEED,{prop},i); for each, one single-threaded fault-free reference run, then {} simulated runs \
+             PRNG(VERIF_SEED,{prop},i){}; for each, one single-threaded fault-free reference run, then {} simulated runs \
              varying worker count (1..16, machine default), claim policy, scheduling strategy (random/sticky/PCT1-3/round-robin), \
              stall faults, slow workers, bounded-stale Relaxed loads{}. A run is non-trivial if at some step at least two \
              simulated threads were runnable or a fault fired; distinct = distinct rolling hash of (chosen thread, pending operation kind) over all steps.",
             tier.name(),
+            if prop == "C01" {
+                " (C01 only: 12 % of the scenarios use one of the selectors pm1, ecm128, rho, squfof, qs64, which have no schedule surface and are workload only)"
+            } else {
+                ""
+            },
             subruns(prop, tier),
             if prop == "C05" || prop == "C01" {
                 ", and abort instants (every poll-distinguishable instant single-threaded; abort@poll/abort@time x schedule multi-threaded)"
@@ -982,6 +1019,10 @@ impl Family for FactorFamily {
         let mut rng = Rng::new(derive(seed, prop, idx, "scenario"));
         let spec = gen_spec(&mut rng, prop, tier);
         rep.sample = spec.to_json();
+        rep.stat(&format!("selector_{}", algo_name(spec.algo)), 1);
+        if spec.n.bits() > 190 {
+            rep.stat("inputs_above_190_bits", 1);
+        }
         let need_pred = prop == "C05" || prop == "C01";
         // reference run: single-threaded, no abort, default schedule
         let mut rcfg = SimConfig::reference(derive(seed, prop, idx, "reference"));
@@ -1044,6 +1085,10 @@ impl Family for FactorFamily {
         }
         if spec.algo == Algo::Ecm && (prop == "C05" || prop == "C01") {
             nsub = nsub.min(if tier == Tier::Quick { 3 } else { 8 });
+        }
+        if matches!(spec.algo, Algo::Pm1 | Algo::Rho | Algo::Squfof | Algo::Qs64) {
+            // no pool, no poll, no knob: the schedule space is a point
+            nsub = nsub.min(2);
         }
         let mut sub_id = 0u64;
         // C05 / C01: exhaustive enumeration of the poll-distinguishable flip instants, single-threaded
